@@ -92,7 +92,18 @@ func (s *Stack) Empty() bool {
 
 // AddIncludeTraceToError adds include trace to given error.
 func (s *Stack) AddIncludeTraceToError(je *jerr.JApiError) {
-	addIncludeTraceToError(je, s.stack)
+	stack := s.stack
+	if je != nil && je.File != nil {
+		// An error located in a suspended (including) file was not reached through
+		// the INCLUDE directives which were followed after that file was suspended.
+		for i, item := range stack {
+			if item.scanner.file == je.File {
+				stack = stack[:i]
+				break
+			}
+		}
+	}
+	addIncludeTraceToError(je, stack)
 }
 
 // ToDirectiveIncludeTracer converts this scanner stack to directive's include trace.
